@@ -149,6 +149,15 @@ def discharge(ob: Obligation, tier="quick"):
                             reason="; ".join(tried) + f"; conjunct #{r5['index']}: lhs-rhs = {r5['value']} at an exact rational point", model=r5["model"])
         except Exception as ex:
             tried.append(f"point-error:{type(ex).__name__}:{ex}")
+    # 5b. identities claimed modulo relations: exact rational point that satisfies the relations
+    if all(isinstance(c, sp.Eq) for c in conj) and any(t.startswith("qqnf:nonzero") for t in tried) and rels_all:
+        try:
+            r5 = B.refute_by_point_rels([c.lhs - c.rhs for c in conj], list(ob.hyps) + [sp.Gt(x_, 0) for x_ in ob.positive], rels_all)
+            if r5 is not None:
+                return dict(verdict="refuted", backend="qqnf+point", seconds=time.time() - t0,
+                            reason="; ".join(tried) + f"; conjunct #{r5['index']}: lhs-rhs = {r5['value']} at an exact rational point satisfying the relations", model=r5["model"])
+        except Exception as ex:
+            tried.append(f"point-rels-error:{type(ex).__name__}:{ex}")
     # 5. separating rational point for pure polynomial equalities
     if all(isinstance(c, sp.Eq) for c in conj):
         try:
@@ -164,6 +173,16 @@ def discharge(ob: Obligation, tier="quick"):
                                         model={str(k): v_ for k, v_ in pt.items()})
         except Exception as ex:
             tried.append(f"point-error:{ex}")
+    # 6. last resort: numerical counter-model with the true elementary functions (40 digits, with margin) - for goals over sqrt/exp/pow/sin/cos/gamma
+    #    that the exact back ends cannot refute; the verdict records that the witness is numerical
+    if any(t.startswith("qqnf:nonzero") or t.startswith("z3:") for t in tried):
+        try:
+            r6 = B.refute_numeric(goal, list(hyps))
+            if r6 is not None:
+                return dict(verdict="refuted", backend="mp-point", seconds=time.time() - t0,
+                            reason="; ".join(tried) + "; hypotheses hold and the goal fails at a point evaluated with the true elementary functions in 40-digit arithmetic (margin 1e-25)", model=r6["model"])
+        except Exception as ex:
+            tried.append(f"mp-point-error:{type(ex).__name__}:{ex}")
     return dict(verdict="undecided", backend="-", seconds=time.time() - t0, reason="; ".join(tried), model=None)
 
 
